@@ -61,9 +61,25 @@ NEEDS = {
  'C17c': ("filter expanded with match() (adds ancestors) instead of valid()", "a filter naming a category strictly below a token-level category (PITCH, DURATION, ...)"),
  'C18c': ("importer dispatch table keyed '**mhxm' instead of '**mxhm'", "a **mxhm spine imported through createImporter / loads"),
  'C20c': ("import_string reads through StringIO with default csv quoting", "loads() of a text with a cell starting with a double quote (load() unaffected)"),
+ 'C01d': ("decoration sort key compares encoding.upper(): case pairs keep their written order", "a note carrying both members of a case pair of signifiers (K/k, M/m, T/t, J/j, L/l ...)"),
+ 'C02d': ("cancelled_at_stage became a property whose setter raises when cancelled twice at different stages", "nested split whose branches are joined in non-reverse order / on different lines"),
+ 'C03d': ("measure-excerpt preamble removes filtered spines from the Document's own stage list", "an export with from_measure AND a spine selection, then the default export of the same Document"),
+ 'C04d': ("agnostic branch glues the alteration onto the previous sub-token in place", "agnostic encoding with PITCH deselected and ALTERATION+DURATION kept, note with accidental"),
+ 'C05d': ("ExportOptions uses 'token_categories or default'; parse_options passes the computed set to the constructor", "an include/exclude pair that selects nothing"),
+ 'C06d': ("Generic.export writes document spine ids into the caller's ExportOptions", "one ExportOptions object (spine_ids None) reused for a second document with more spines, via kp.export/kp.store"),
+ 'C07d': ("Document iteration uses a cursor stored on the document; __iter__ returns self", "two iterations of the same document alive at once (nested loops, zip(doc, doc))"),
+ 'C09d': ("negative intervals normalised to (abs, 'down') discarding the caller's direction", "interval d1 or dd1 with direction 'down' through the transposer API"),
+ 'C10d': ("agnostic tokenizers return early when NOTE is not among the selected categories", "agnostic encoding with an include listing leaf categories (PITCH ...) without NOTE, clef other than G2"),
+ 'C12d': ("import_file reads with csv.excel_tab (quoting) while import_string keeps QUOTE_NONE", "a malformed cell starting with a double quote, read through kp.load"),
+ 'C13d': ("'x or default' in ExportOptions + constructor call in parse_options", "an empty selection (spine_types=[] or include/exclude cancelling out)"),
+ 'C14d': ("export_string appends a sentinel to the document's measure list in place", "a dump with to_measure == measures_count() followed by any measure-dependent query"),
+ 'C15d': ("sub-tokens rebuilt through a dict keyed by Subtoken (equal dots collapse)", "a note or rest with two or more augmentation dots"),
+ 'C17d': ("valid() skips categories 'covered' by another one with the argument order reversed", "a filter containing an ancestor/descendant pair"),
+ 'C19d': ("public.concat pops trailing pairs with to <= from", "a last fragment that contains exactly one barline"),
+ 'C20d': ("Generic.store compares os.path.getsize (bytes) with len(content) (characters)", "dump of an export containing a non-ASCII character (lyrics, or any eKern export with decorations)"),
 }
-MISSED_FIRST = {'C02a', 'C04a', 'C10a', 'C16a', 'C20a', 'C20b', 'C18b'}
-STRENGTHENED_BEFORE_FIRST_RUN = {'C16b', 'C04b', 'C11b', 'C11c', 'C09c', 'C04c', 'C01c'}
+MISSED_FIRST = {'C02a', 'C04a', 'C10a', 'C16a', 'C20a', 'C20b', 'C18b', 'C03d'}
+STRENGTHENED_BEFORE_FIRST_RUN = {'C16b', 'C04b', 'C11b', 'C11c', 'C09c', 'C04c', 'C01c', 'C07d', 'C06d', 'C12d', 'C10d'}
 HEAD = subprocess.run(['git', '-C', '/repo', 'rev-parse', '--short', 'HEAD'], capture_output=True, text=True).stdout.strip()
 # changes that a later fix: commit in /repo made harmless (kept for the record; they were confirmed and caught at the commit named)
 NEUTRALISED = {
